@@ -13,19 +13,19 @@ type TWCCDelta struct {
 
 // TWCCWalk is the independent expansion of the raw octets of a transport-wide-cc packet.
 type TWCCWalk struct {
-	Padding            bool
-	LengthField        uint16
-	Sender, Media      uint32
-	Base, Count        uint16
-	RefTime            uint32
-	FbCount            uint8
-	ChunkWords         []uint16
-	Symbols            []uint8 // all symbols announced by the chunks: runs clipped to the remaining count, vectors in full
-	Deltas             []TWCCDelta
-	ChunksEnd, Cursor  int // offsets after the last chunk / after the last delta
-	Declared           int // 4*(length+1)
-	StatusesWithinCnt  []uint8 // Symbols truncated to Count
-	DeltasWithinCount  int     // number of deltas belonging to the first Count statuses
+	Padding           bool
+	LengthField       uint16
+	Sender, Media     uint32
+	Base, Count       uint16
+	RefTime           uint32
+	FbCount           uint8
+	ChunkWords        []uint16
+	Symbols           []uint8 // all symbols announced by the chunks: runs clipped to the remaining count, vectors in full
+	Deltas            []TWCCDelta
+	ChunksEnd, Cursor int     // offsets after the last chunk / after the last delta
+	Declared          int     // 4*(length+1)
+	StatusesWithinCnt []uint8 // Symbols truncated to Count
+	DeltasWithinCount int     // number of deltas belonging to the first Count statuses
 }
 
 // ErrWalk is returned when the octets cannot be walked inside their bounds.
